@@ -31,7 +31,7 @@ static int again_permille = 0, again_max = 1, sleep_permille = 0, sleep_us = 200
 static const char *outdir = ".";
 
 /* ---------- per-thread record buffers ---------- */
-#define NBUF 320
+#define NBUF 1088   /* 16 virtual processes x 64 streams + 64 spare; th_id is only unique inside a virtual process */
 #define CHUNK 2048
 typedef struct chunk_s { struct chunk_s *next; int n; vf_rec_t r[CHUNK]; } chunk_t;
 static chunk_t *bufs[NBUF];
@@ -71,11 +71,11 @@ static inline uint64_t inst_hash(int tp, int cls, int np, const int *p) {
 }
 
 vf_rec_t *vf_e1_enter(parsec_execution_stream_t *es, parsec_task_t *task, int tp, int cls, int np, int p0, int p1, int p2, int p3) {
-    vf_rec_t *r = rec_alloc(es ? es->th_id : -1);
+    vf_rec_t *r = rec_alloc(es ? ((es->virtual_process ? es->virtual_process->vp_id : 0) * 64 + es->th_id) : -1);
     memset(r, 0, sizeof(*r));
     r->enter = vf_e1_stamp();
     r->tp = tp; r->cls = cls; r->p[0] = p0; r->p[1] = p1; r->p[2] = p2; r->p[3] = p3;
-    r->rank = vf_rank; r->thread = es ? es->th_id : -1;
+    r->rank = vf_rank; r->thread = es ? ((es->virtual_process ? es->virtual_process->vp_id : 0) * 64 + es->th_id) : -1;
     r->prio = task->priority;
     uint64_t h = inst_hash(tp, cls, np, r->p);
     r->invocation = inst_bump(h);
